@@ -7,7 +7,8 @@ import CedarModel.Stream
 namespace Cedar
 open CedarGen
 
-def csMagic : Bytes := stream.cryptoStateMagic.toUTF8.toList
+/-- the magic as bytes (ASCII; `String.toUTF8` does not reduce in the kernel, `toList` does) -/
+def csMagic : Bytes := stream.cryptoStateMagic.toList.map (fun c => UInt8.ofNat c.toNat)
 def csVersion : Nat := stream.cryptoStateVersion
 def csFixedLen : Nat := stream.cryptoStateFixedLen
 
